@@ -479,6 +479,16 @@ func (bb *TwoDBoundingBox) UnmarshalJSON(data []byte) error {
 		return err
 	}
 
+	// more coordinates than a TwoDPoint can hold would make the decoder panic
+	var rawCorners map[string]interface{}
+	if json.Unmarshal(data, &rawCorners) == nil {
+		for _, key := range []string{"lowerLeft", "upperRight"} {
+			if rawCorner, ok := rawCorners[key].([]interface{}); ok && len(rawCorner) > len(TwoDPoint{}) {
+				return fmt.Errorf(`%s should consist of %d numbers: %v`, key, len(TwoDPoint{}), rawCorner)
+			}
+		}
+	}
+
 	specials, err := marshmallow.Unmarshal(data, bb, marshmallow.WithExcludeKnownFieldsFromMap(true))
 	if err != nil {
 		return err
@@ -607,6 +617,10 @@ func (tm *TileMatrix) UnmarshalJSONFromMap(data interface{}) error {
 	}
 	// a coordinate that is not a number (null) would silently be read as 0
 	if rawPointOfOrigin, ok := dataMap["pointOfOrigin"].([]interface{}); ok {
+		// more coordinates than a TwoDPoint can hold would make the decoder panic
+		if len(rawPointOfOrigin) > len(TwoDPoint{}) {
+			return fmt.Errorf(`pointOfOrigin should consist of %d numbers: %v`, len(TwoDPoint{}), rawPointOfOrigin)
+		}
 		for _, rawCoordinate := range rawPointOfOrigin {
 			if _, ok := rawCoordinate.(float64); !ok {
 				return fmt.Errorf(`pointOfOrigin should consist of numbers: %v`, rawPointOfOrigin)
